@@ -16,10 +16,11 @@ func init() {
 func ruleDefineGuards(c *Ctx, r *R) {
 	write := c.SSAFunc(c.LookupFunc("", "object.writeProperty"))
 	del := c.SSAFunc(c.LookupFunc("", "object.deleteProperty"))
-	if write == nil || del == nil {
-		r.undecided("anchors", "-", "UNRESOLVED (*object).writeProperty / deleteProperty")
+	if write == nil {
+		r.undecided("anchors", "-", "UNRESOLVED (*object).writeProperty")
 		return
 	}
+	// del may be nil: the removal is then written out where it is used (delete sites below)
 	cf := computeClassFacts(c)
 	// which functions are the generic [[DefineOwnProperty]] / [[Delete]]: the ones installed in those slots of classObject
 	defineImpl, deleteImpl := map[*ssa.Function]bool{}, map[*ssa.Function]bool{}
@@ -51,6 +52,21 @@ func ruleDefineGuards(c *Ctx, r *R) {
 				}
 				callee := call.Call.StaticCallee()
 				site := c.Pos(instrPos(ins))
+				// a removal from the property table written out in place (not inside the removing primitive itself)
+				if bi, isB := call.Call.Value.(*ssa.Builtin); isB && bi.Name() == "delete" && fn != del && len(call.Call.Args) == 2 {
+					if ld, ok := call.Call.Args[0].(*ssa.UnOp); ok && isFieldAddr(ld.X, "object", "property") {
+						key := "deleter-call:" + ssaFuncName(fn)
+						if !deleteImpl[fn] {
+							r.bad(key, site, fmt.Sprintf("%s removes a property from an object's table directly; only the function installed as [[Delete]] may (ES5 8.12.7)", ssaFuncName(fn)))
+							continue
+						}
+						r.check(dominatedByMethodTrue(fn, call, "configurable"), key, site, "dominated by prop.configurable()", "the removal from the property table is reachable without a dominating prop.configurable() == true test: a non-configurable property can be deleted")
+					}
+					continue
+				}
+				if callee == nil {
+					continue
+				}
 				switch callee {
 				case write:
 					key := "writer-call:" + ssaFuncName(fn)
